@@ -402,7 +402,7 @@ def main():
     # ---- 4c''. C20: CallbackInfo.Name identifies the function (declared functions: distinct names)
     name_cov = None
     if prop == "C20":
-        ncases = gen.generate_viz(seed, 60 if tier == "quick" else 1500)
+        ncases = gen.generate_viz(seed, 240 if tier == "quick" else 4000, pool_decorators=True)
         for c in ncases:
             c["viz"] = False
             for f in c["fns"]:
@@ -418,7 +418,10 @@ def main():
                         seen_cb += 1
                         if ev.get("name") != f"main.P{pool_of[ev['f']]}":
                             wrong.append((c, t, oi, ev))
-        name_cov = dict(histories=len(ncases), callbacks_of_declared_functions=seen_cb, wrong_names=len(wrong))
+        dec_cb = sum(1 for c, t in zip(ncases, ntraces) for ot in t["ops"] for ev in ot["events"]
+                     if ev["ev"] == "cb" and any(o["op"] == "decorate" and o["fn"] == ev["f"] for o in c["ops"]))
+        name_cov = dict(histories=len(ncases), callbacks_of_declared_functions=seen_cb,
+                        of_which_decorators=dec_cb, wrong_names=len(wrong))
         if wrong:
             c, t, oi, ev = wrong[0]
             p = write_replay(prop, f"name-{case_hash(c)}", {"property": prop, "meaning": "CallbackInfo.Name does not identify the function that was executed",
